@@ -268,3 +268,34 @@ PROPS["C19"] = {
     "trusted_base": [],
     "assumptions": [],
 }
+
+RUN_RULE = ("generated argument lists (seeded): 1-5 files of kinds formatted / unformatted / unparseable / not UTF-8 / rejected by --verify / missing path, in sub-directories, in shuffled order, with and without --num-threads and --verify. ring 2 (`run`): exit status, set of modified files and set of files with a diff vs Model/Run.lean. distinct_nontrivial = all distinct outcome vectors. ")
+
+PROPS["C13"] = {
+    "lean_modules": ["StyluaModel.Props.C13"],
+    "theorem_prefix": "C13_",
+    "required_theorems": ["C13_no_writes", "C13_diff_iff", "C13_exit"],
+    "py": [cli.c13],
+    "needs_cli": True,
+    "level": "proof",
+    "level_text": "Proof on the run model: check mode writes nothing; a diff is reported for exactly the differing files; the exit status is 2 iff some file failed, else 1 iff some differs, else 0 - for every order in which workers complete (through the C19 theorem). Partial with respect to the operating system: that no file is created, modified or touched is observed (bytes, mtime, inode of every file before/after) rather than proven.",
+    "level_note": "Trusted: Lean kernel; Model/Run.lean tied by the `run` correspondence on generated trees; snapshot comparison for the no-write clause; unreadable files are simulated by invalid UTF-8 (the sandbox runs as root, so permission bits do not bite); the unified format carries no file name, so only the number of diffs is compared.",
+    "technique": "Lean 4 decision-logic proof lifted over completion orders + CLI runs on generated trees with file-system snapshots",
+    "rule": RUN_RULE + "x 4 output formats in check mode. ring 3: no file touched/created; exit status per the property; diff set.",
+    "trusted_base": [],
+    "assumptions": [],
+}
+PROPS["C14"] = {
+    "lean_modules": ["StyluaModel.Props.C13"],
+    "theorem_prefix": "C14_",
+    "required_theorems": ["C14_writes", "C14_exit2"],
+    "py": [cli.c14],
+    "needs_cli": True,
+    "level": "proof",
+    "level_text": "Proof on the run model: in write mode exactly the differing files are replaced (by their complete formatted text), failing and already-formatted files are not written, every selected file is processed whatever the completion order, exit status 2 iff some file failed. Partial: atomicity of fs::write under a crash and early `?` returns of the walker (a malformed configuration met mid-walk) are outside the model; file contents, mtimes and inodes are observed.",
+    "level_note": "Trusted: as C13. Read-only files cannot be simulated as root. The verification-failing specimen is `-((-x))`, which StyLua's own verifier rejects.",
+    "technique": "Lean 4 decision-logic proof + CLI runs on generated trees with file-system snapshots",
+    "rule": RUN_RULE + "x 2 output formats in write mode. ring 3: differing files equal their known formatted text, all other files keep bytes, mtime and inode, nothing is created, exit status.",
+    "trusted_base": [],
+    "assumptions": [],
+}
